@@ -7,6 +7,8 @@ import types
 CALL_LOG = []          # dicts: seq, vt, thread, op, metric, args, outcome
 _lock = threading.Lock()
 FAULT_PLAN = {}        # call index (0-based over exists/create/write) -> exception class name
+FAULT_OPS = {}         # persistent conditions: op ('exists' | 'create' | 'write') -> exception class name (e.g. disk full: every create raises)
+FAULT_METRICS = {}     # damaged files: metric -> exception class name raised by every write to that metric
 CLOCK = [None]         # callable returning virtual time, set by harness
 TICK = [None]          # callable returning the harness' logical clock
 EXC = {'IOError': IOError, 'OSError': OSError, 'ValueError': ValueError,
@@ -23,6 +25,8 @@ EXC['InjectedFault'] = InjectedFault
 def reset():
   del CALL_LOG[:]
   FAULT_PLAN.clear()
+  FAULT_OPS.clear()
+  FAULT_METRICS.clear()
 
 
 def _log(op, metric, args):
@@ -49,7 +53,9 @@ def register_plugin():
       self.meta = {}
 
     def _maybe_fault(self, ent):
-      name = FAULT_PLAN.get(ent['seq'])
+      name = FAULT_PLAN.get(ent['seq']) or FAULT_OPS.get(ent['op'])
+      if not name and ent['op'] == 'write':
+        name = FAULT_METRICS.get(ent['metric'])
       if name:
         ent['outcome'] = 'raise:' + name
         raise EXC[name]('injected fault at backend call %d (%s %s)' % (ent['seq'], ent['op'], ent['metric']))
